@@ -1182,16 +1182,19 @@ static void bfs_replay_one(Run &r, Make make, const Vec &v)
 // =====================================================================================================
 // jobs
 // =====================================================================================================
-// depth per job family.  The bounded state spaces of the serial-stamped kind, the command kind and unique/typed_array are
-// small enough to be explored to closure in the thorough tier (the bound 12 is never reached: see the closure counter);
-// meta mirrors array (pointer + addref/unref) and conf multiplies the content classes, both stay one level below
+// depth per job family.  In the thorough tier the bounded state spaces of the serial-stamped kind, the command kind and
+// unique/typed_array are explored to CLOSURE from the empty start state (the bound 64 is never reached: the frontier runs
+// empty at depth 17 / 16 / 8, see the counters "new states at depth NN" and "jobs explored to closure"); their other start
+// states add breadth in parallel.  meta mirrors array (pointer + addref/unref) and conf multiplies the content classes:
+// both stay one level below array / ident.
 static int depth_of(Tier t, const std::string &job)
 {
 	bool q = t == Quick;
-	if (!job.compare(0, 10, "buf:serial") || !job.compare(0, 7, "buf:cmd")) return q ? 3 : 12;
+	bool first = job.size() > 2 && !job.compare(job.size() - 2, 2, ":0");
+	if (!job.compare(0, 10, "buf:serial") || !job.compare(0, 7, "buf:cmd")) return q ? 3 : (first ? 64 : 4);
 	if (!job.compare(0, 8, "buf:conf") || !job.compare(0, 8, "buf:meta")) return q ? 2 : 4;
 	if (!job.compare(0, 4, "buf:")) return q ? 3 : 5;
-	if (!job.compare(0, 6, "cxx:0:") || !job.compare(0, 6, "cxx:1:")) return q ? 4 : 12;
+	if (!job.compare(0, 6, "cxx:0:") || !job.compare(0, 6, "cxx:1:")) return q ? 4 : (first ? 64 : 5);
 	return q ? 3 : 6;     // reference_array / item_array
 }
 void mc_jobs(Tier t, std::vector<std::string> &jobs)
@@ -1199,7 +1202,6 @@ void mc_jobs(Tier t, std::vector<std::string> &jobs)
 	(void) t;
 	for (int k = 0; k < NKINDS; ++k) for (int i = 0; i < BSys::NINIT; ++i) jobs.push_back(std::string("buf:") + kind_name[k] + ":" + std::to_string(i));
 	for (int m = 0; m <= M_ITEM; ++m) for (int i = 0; i < CSys::NINIT; ++i) jobs.push_back("cxx:" + std::to_string(m) + ":" + std::to_string(i));
-	if (getenv("C05_ONLY")) { std::vector<std::string> f; for (auto &j : jobs) if (!j.compare(0, strlen(getenv("C05_ONLY")), getenv("C05_ONLY"))) f.push_back(j); jobs = f; }   /*DEVONLY*/
 }
 static bool parse_cxx(const std::string &job, int &mode, uint64_t &init)
 {
@@ -1227,6 +1229,7 @@ static void requires_(Run &r)
 	                       "injected constructor failures", "shared buffer: elements copy-constructed into a private copy", "overwrite in the middle, tail kept", "gap default-constructed",
 	                       "teardown: last handle gone, nothing alive" })
 		r.require(k);
+	if (r.tier == Thorough) r.require("jobs explored to closure (every reachable bounded state expanded)");
 }
 void mc_explore(Run &r, const std::string &job)
 {
